@@ -23,6 +23,11 @@ import (
 	"verif/harness/vh"
 )
 
+// hangLimit: how long an operation may take before the harness calls it a hang.  It only bounds hangs —
+// no verdict depends on something happening *within* a short time: on a busy machine a correct operation
+// may be descheduled for seconds.  (A real hang costs this long once; the type is then marked dead.)
+const hangLimit = 25 * time.Second
+
 var childDeadline = flag.Int64("deadline", 0, "internal: unix time at which a child process must exit")
 
 type phaseBudget struct {
